@@ -30,6 +30,7 @@ type c01Plan struct {
 	nTrunc     int
 	nMut       int
 	nRand      int
+	nShape     int
 }
 
 const c01Chunk = 24
@@ -68,10 +69,10 @@ func (e *C01) getPlan(tier string, seed uint64) *c01Plan {
 	e.once.Do(func() {
 		p := &c01Plan{pop: getPop(seed)}
 		dense, sampled := 300, 24
-		p.nMut, p.nRand = 24000, 3000
+		p.nMut, p.nRand, p.nShape = 24000, 3000, 12000
 		if tier == "thorough" {
 			dense, sampled = 8192, 256
-			p.nMut, p.nRand = 400000, 40000
+			p.nMut, p.nRand, p.nShape = 400000, 40000, 400000
 		}
 		for fi, f := range p.pop.files {
 			r := core.NewRng(seed, 0xC01, uint64(fi))
@@ -104,7 +105,7 @@ func (e *C01) getPlan(tier string, seed uint64) *c01Plan {
 func (e *C01) ID() string    { return "C01" }
 func (e *C01) Level() string { return "fault_enumeration" }
 func (e *C01) Rule() string {
-	return "cases: (a) for every corpus/generated file x natural entry point: every cut point k (dense prefix, every walker-found structure boundary +-1, seeded sample, len-1, len) x 5 terminal reader behaviours (EOF, data+EOF, injected error, ErrUnexpectedEOF, failing Seek); (b) structure-aware malformations (1-3 operators at walker-found size/count/offset/type fields, flips, deletions, duplications, splices) run through the file's natural entries plus two random entries and random reader kinds / chunk schedules; (c) random byte strings of length 0..4096 through every entry. A call is non-trivial when it consumed more than 24 bytes or returned a non-sniffing error; distinct = distinct (entry, outcome class with digits stripped, log4 bucket of bytes delivered)."
+	return "cases: (a) for every corpus/generated file x natural entry point: every cut point k (dense prefix, every walker-found structure boundary +-1, seeded sample, len-1, len) x 5 terminal reader behaviours (EOF, data+EOF, injected error, ErrUnexpectedEOF, failing Seek); (b) structure-aware malformations (1-3 operators at walker-found size/count/offset/type fields, flips, deletions, duplications, splices) run through the file's natural entries plus two random entries and random reader kinds / chunk schedules; (c) random byte strings of length 0..4096 through every entry; (d) grammar-based shapes: tightly packed trees of the box types the ISOBMFF reader dispatches on (meta/hdlr/pitm/iinf+infe/iloc/iref/iprp, moov/Canon uuid/CNCV/CTBO/CMT1-4/THMB, PRVW) and small TIFF directories over the tags the Exif reader interprets, with boundary-biased sizes, counts, versions, field widths, types and offsets in several cooperating fields at once, through the family's natural entries with clean and faulting readers. A call is non-trivial when it consumed more than 24 bytes or returned a non-sniffing error; distinct = distinct (entry, outcome class with digits stripped, log4 bucket of bytes delivered)."
 }
 func (e *C01) Assumptions() []string {
 	return []string{"panics and fatal errors are observed by recover() in the worker and by the exit status/stderr of the isolated worker process",
@@ -113,7 +114,7 @@ func (e *C01) Assumptions() []string {
 }
 func (e *C01) Plan(tier string, seed uint64) int {
 	p := e.getPlan(tier, seed)
-	return p.nTrunc + p.nMut + p.nRand
+	return p.nTrunc + p.nMut + p.nRand + p.nShape
 }
 func (e *C01) MinNontrivial(tier string) int { return 40 }
 
@@ -201,6 +202,22 @@ func (e *C01) Run(c *core.Ctx, idx int) {
 		if c.Rec.WantSample() && idx%97 == 0 {
 			c.Rec.Sample(map[string]any{"kind": "malformation", "file": f.Name, "ops": desc, "len": len(data)})
 		}
+	case idx >= p.nTrunc+p.nMut+p.nRand:
+		r := c.Rng(idx)
+		data, desc := gen.Shape(r)
+		for _, ei := range EntriesFor(p.pop.entries, gen.KindOf(data)) {
+			rs := mon.NewRS(data)
+			what := "clean"
+			switch r.Intn(5) {
+			case 0:
+				what = readerKind(rs, r.Intn(5), r.Intn(len(data)+1))
+			case 1:
+				rs.Sched = randSched(r)
+				what = fmt.Sprint("sched", rs.Sched)
+			}
+			c01Call(c, p.pop.entries[ei], rs, fmt.Sprintf("%s reader=%s", desc, what))
+		}
+		c.Rec.Count("shape_inputs", 1)
 	default:
 		r := c.Rng(idx)
 		n := r.Intn(65)
